@@ -321,10 +321,13 @@ def gen_cancel_case(r):
             ev += [["T"], ["W", 0]]
     ev.append(["Q"])
     victim = r.choice(sent)
-    if r.random() < 0.5:
+    x = r.random()
+    if x < 0.4:
         ev.append(["N", victim[1], r.choice([victim[2], r.randrange(65536)]), 69, victim[4]])
-    else:
+    elif x < 0.7:
         ev.append(["D", victim[1], r.choice([1, 3, 5])])
+    else:
+        ev.append(["X", victim[1], victim[2]])      # coap_delete_node on the linked node
     ev.append(["Q"])
     if r.random() < 0.4:
         v2 = r.choice(sent)
